@@ -1,6 +1,7 @@
 """C15 — every refresh lists each aircraft once, ordered by the requested key."""
 import itertools
 from fractions import Fraction
+import re
 import core, gen, frames as F
 from props.base import PropBase
 from props import render_common as RC
@@ -125,6 +126,44 @@ class C15(PropBase):
                 if len(set(known)) >= 3:
                     rep.nontriv((ti, o))
         rep.sample({"orders": orders[:20], "printed_example": printed[:6]})
+        # the same through the built binary (the -o values take the way a user's take): the rows of its last refresh are in the order
+        # the library prints them in for the same key string
+        cli = core.build_cli(False)
+        addrs, pre, body = self.table(rng)
+        lines = pre + body
+        for argv, o in (([], None), (["-o", "N"], "N"), (["-o", "s", "-o", "d"], "s+d"), (["--order-by=W"], "W"), (["-o", "Av"], "Av"), (["-o", ""], ""),
+                        (["-o", "x"], "x"), (["-o", "D", "--order-by", "a"], "D+a")):
+            rc, screens, err = core.cli_screens(cli, ["-i", "e", "-O", "52.66,-8.62", "-R"] + argv, lines, run.dir)
+            rep.evaluations += 1
+            tables = [sc for sc in screens if sc and re.match(r"\s*ICAO +RG ", sc[0])]
+            if rc != 0 or not tables:
+                self.fail(rep, f"squitterator {' '.join(argv)!r}: exit status {rc}, {len(tables)} tables printed ({err[-200:]!r})", {"ops": [], "cli_args": argv})
+                return
+            got = [int(t[:6], 16) for t in tables[-1][2:] if re.match(r"^[0-9A-F]{6} ", t)]
+            cfg = dict(relaxed=True, groups="e", delete_after=600, observer="52.66,-8.62")
+            if o is not None:
+                cfg["order"] = o
+            ops = ["reset", gen.cfg_op(**cfg)] + gen.seg(lines) + ["dump", "render"]
+            impl, so, _ = run.execute(ops, model=False)
+            want = [int(t[:6], 16) for t in RC.renders(so)[-1][2:] if len(t) >= 6]
+            if sorted(got) != sorted(want):
+                self.fail(rep, f"squitterator {' '.join(argv)!r} lists {len(got)} aircraft, the table holds {len(want)}", {"ops": ops, "cli_args": argv})
+                return
+            # rows with equal keys may come in any order (the table is a hash map): judged by the key, not against the other listing
+            rows = gen.parse_dump(impl)
+            keys = "sA" if o is None else o.replace("+", "")
+            last = next((c for c in reversed(keys) if keyfun(c)), None)
+            if last is None:
+                if got != sorted(got):
+                    self.fail(rep, f"squitterator {' '.join(argv)!r} has no recognised key but the rows are not in ascending address order", {"ops": ops, "cli_args": argv})
+                    return
+            else:
+                fn, direction = keyfun(last)
+                known = [v for v in (fn(rows[a]) for a in got) if v is not None]
+                if not all((known[i] <= known[i + 1]) if direction == 1 else (known[i] >= known[i + 1]) for i in range(len(known) - 1)):
+                    self.fail(rep, f"squitterator {' '.join(argv)!r}: key {last} is not monotone down the table: {known}", {"ops": ops, "cli_args": argv, "key": last})
+                    return
+            rep.nontriv(("cli-order", tuple(argv)))
 
     def reader_refreshes(self, rep, run, rng, tier):
         """the tables the real reader prints while it reads (refresh after every accepted frame): every refresh lists each aircraft
